@@ -170,10 +170,14 @@ func ladder(c *explore.Ctx) {
 // toplevel: values that are themselves Message / custom implementations or scalars.
 func toplevel(c *explore.Ctx) {
 	data := [][]byte{nil, {}, {8, 1}, make([]byte, 127), make([]byte, 128), make([]byte, 300)}[c.Choose(6)]
-	k := c.Choose(7)
+	k := c.Choose(9)
 	var val any
 	var name string
 	switch k {
+	case 7:
+		val, name = &pgen.GogoCustom{Data: data}, "*GogoCustom (gogoproto-style MarshalTo)"
+	case 8:
+		val, name = struct{ G *pgen.GogoCustom }{&pgen.GogoCustom{Data: data}}, "struct with a *GogoCustom field"
 	case 0:
 		val, name = proto.RawMessage(data), "RawMessage"
 	case 1:
